@@ -987,6 +987,21 @@ pub fn expand_self_rule(cx: &Cx, rep: &mut Report) {
             None => bad.push("the visited type is not compared with `Self`".into()),
         }
     }
+    // the dispatchers `impl VisitableMut for X`: the whole value goes to the visitor's method for X (a dispatcher that hands
+    // on only a part - the where-clause, say - leaves `Self` unexpanded in the rest)
+    let disp: Vec<Rc<FnDef>> = ix.fns.values().flatten().filter(|f| f.is_trait_impl.is_some() && f.self_ty.is_some() && sig_text(f).contains("&mutimplVisitMut")).cloned().collect();
+    rep.floor("visitor dispatchers (impl VisitableMut for X)", disp.len(), 2);
+    for f in &disp {
+        let x = f.self_ty.clone().unwrap_or_default();
+        let mut snake = String::new();
+        for (i, c) in x.chars().enumerate() { if c.is_uppercase() { if i > 0 { snake.push('_'); } snake.extend(c.to_lowercase()); } else { snake.push(c); } }
+        let want = format!("visit_{snake}_mut(");
+        let ev = mk_ev(ix);
+        let outs = ev.call_fn(St::new(), f, Some(sym(&x, "input")), vec![sym("Visitor", "visit")]);
+        rep.unanalysable(&f.qual, &ev.unsupported.borrow());
+        let ok = !outs.is_empty() && outs.iter().all(|(st, _)| notes(st).iter().any(|n| { let n = n.replace(' ', ""); n.contains(&want) && (n.ends_with("($input)") || n.ends_with(",$input)")) }));
+        rep.check(ok, "DM-expand-self", &f.qual, "whole-value", &format!("the traversal hook of `{x}` does not hand the whole value to the visitor's `visit_{snake}_mut` on every path: `Self` stays unexpanded in the parts it skips"), &site(f), json!({"paths": outs.iter().map(|(st, _)| format!("[{}] {:?}", crate::model::cond_str(&st.cond), notes(st))).collect::<Vec<_>>()}));
+    }
     bad.sort(); bad.dedup();
     rep.check(replaced && descended && bad.is_empty(), "DM-expand-self", &fd.qual, "replace-or-descend", &format!("`Self` is not replaced by the self type exactly where it occurs (replaced: {replaced}, other types traversed: {descended}; {})", bad.join("; ")), &site(&outer), json!({}));
 }
